@@ -57,3 +57,19 @@ Proof. exact published_never_disappears. Qed.
 From BB Require Import Proofs.GenTieMon Gen.GMon.
 Theorem C20_source_tie_update_cond : forall s mx, GMon.monitor_update_cond s mx = PrimFloat.ltb mx s.
 Proof. exact tie_monitor_cond. Qed.
+
+(* the reader as the code has it: file.exists() and open(file) are separate steps and the writer
+   may run in between; still no error, and only running maxima are read *)
+From BB Require Import Proofs.MonitorFine.
+Theorem C20_reader_exists_then_open_safe : forall samples mx0 sched,
+  let '(s, r) := exec3 sched (writer samples mx0) fs0 R3Start in
+  match r with
+  | R3Done RError => False
+  | R3Done (RSome v) => In v (running_maxes samples mx0)
+  | _ => True
+  end.
+Proof. exact reader3_safe. Qed.
+Theorem C20_reader_exists_then_open_refines : forall samples mx0 sched x,
+  snd (exec3 sched (writer samples mx0) fs0 R3Start) = R3Done x ->
+  exists sched', snd (exec sched' (writer samples mx0) fs0 RStart) = RDone x.
+Proof. exact reader3_results_reachable. Qed.
